@@ -20,8 +20,10 @@ BY_CONSTRUCTION = {
                 'vectors were added from the author\'s description while the first run was being started',
 }
 CAUGHT_BY_OTHER = {
-    # the change is to the order in which suite and case contents are merged ([conf]: the suite's `status` then overrides the
-    # case's): the subject of C17, whose check catches it; C02's kernels run single cases
+    # the change is to `filter -line-nums` with several ranges (range_merge): the subject of C13 (C05 states it as outside
+    # its claim and refers to C13), whose check catches it
+    'C05-r6m1': ('C13', 'the change is to the merging of several ranges of `filter -line-nums`, which C05 states as outside its claim '
+                        '(line selection is C13)'),
 }
 ALSO = {
     'C02-r5m1': ['C17 K3:sub, K3:beside:*, K3:named (the check of C17 caught it before C02 got K7: the change is to the order '
@@ -68,9 +70,9 @@ def main():
             entry.update(caught_by=prop, obligations=obligations_of(log1))
             tally['at_once'].append(seed)
         elif rc2 == 1 and seed in CAUGHT_BY_OTHER:
-            entry.update(caught_by=CAUGHT_BY_OTHER[seed], obligations=obligations_of(log2))
-            note.append('not seen by the check of %s (quick exit %s): caught by the check of %s, whose property it breaks as well '
-                        '(the order in which suite and case contents are merged)' % (prop, rc1, CAUGHT_BY_OTHER[seed]))
+            other, why = CAUGHT_BY_OTHER[seed]
+            entry.update(caught_by=other, obligations=obligations_of(log2))
+            note.append('not seen by the check of %s (quick exit %s): caught by the check of %s - %s' % (prop, rc1, other, why))
             tally['strengthened'].append(seed)
         elif rc2 == 1:
             entry.update(caught_by=prop, obligations=obligations_of(log2))
